@@ -92,7 +92,7 @@ fn gen_time(r: &mut Rng) -> String {
 fn gen_datetime(r: &mut Rng) -> String {
     // date must be precise when a time follows
     let mut s = if r.chance(1, 4) { gen_date(r) } else { format!("{:04}{:02}{:02}{}", r.range(1900, 2100), r.range(1, 12), r.range(1, 28), gen_time(r)) };
-    if r.chance(1, 3) { s.push_str(&format!("{}{:02}{:02}", if r.coin() { '+' } else { '-' }, r.range(0, 12), *r.pick(&[0u32, 30, 45]))); }
+    if r.chance(1, 3) { let (h, m) = (r.range(0, 12), *r.pick(&[0u32, 30, 45])); s.push_str(&format!("{}{:02}{:02}", if r.coin() || (h == 0 && m == 0) { '+' } else { '-' }, h, m)); }
     s
 }
 
@@ -147,7 +147,7 @@ fn pick_tag(r: &mut Rng, pools: &Pools, vi: usize, implicit: bool, used: &BTreeM
                 6 => (0x0009 + 2 * r.below(40) as u16, 0x0010 + r.below(0xF0) as u16),      // private creator range
                 7 => (0x5000 + 2 * r.below(16) as u16, *r.pick(&[0x0005u16, 0x0010, 0x2500, 0x3000])), // repeating groups
                 8 => (0x6000 + 2 * r.below(16) as u16, *r.pick(&[0x0010u16, 0x0011, 0x0022, 0x1500])),
-                _ => (2 * r.below(0x7FFF) as u16 + 8, r.below(65536) as u16),                // unknown / arbitrary
+                _ => (2 * r.below(0x7FF0) as u16 + 8, r.below(65536) as u16),                // unknown / arbitrary
             }
         };
         if t.0 == 0xFFFE || t.0 < 8 || t == (0x0008, 0x0005) || t == (0x0028, 0x0103) || t == (0x7FE0, 0x0010) { continue; }
@@ -169,7 +169,7 @@ pub fn gen_elems(r: &mut Rng, pools: &Pools, o: GenOpts, depth: u32, top: bool) 
     let mut used: BTreeMap<(u16, u16), ()> = BTreeMap::new();
     let mut out: Vec<GElem> = vec![];
     for _ in 0..n {
-        let vi = r.below(34) as usize;
+        let vi = if depth < 4 && r.chance(1, 5) { vr_idx("SQ") } else { r.below(34) as usize };
         let name = vr_name(vi);
         if name == "SQ" {
             if depth >= 4 { continue; }
